@@ -21,6 +21,30 @@ OPS = [(r"(?<![=!<>])==(?!=)", "!="), (r"!=", "=="), (r"(?<![<\-])<(?![<=\-])", 
        (r"<=", "<"), (r">=", ">"), (r"&&", "||"), (r"\|\|", "&&")]
 
 
+def sites2(files):
+    """Second operator set: swallowed errors, dropped negations, flipped boolean results, deleted statements."""
+    out = []
+    for f in files:
+        lines = open(os.path.join("/repo", f)).read().split("\n")
+        for i, line in enumerate(lines):
+            code = line.split("//")[0].rstrip()
+            st = code.strip()
+            if not st or st.startswith(("import", "package", '"', "*", "/*")):
+                continue
+            m = re.match(r"^(\s*return (?:.*, )?)(errors\.New\(.*\)|fmt\.Errorf\(.*\)|Err[A-Za-z0-9]+|err[A-Za-z0-9]*)$", code)
+            if m:
+                out.append((f, i, line, m.group(1) + "nil", "swallow-error"))
+            m = re.match(r"^(\s*(?:if|} else if) )!([A-Za-z_][\w\.]*(?:\(.*\))?) \{$", code)
+            if m:
+                out.append((f, i, line, m.group(1) + m.group(2) + " {", "drop-negation"))
+            m = re.match(r"^(\s*return (?:.*, )?)(true|false)$", code)
+            if m:
+                out.append((f, i, line, m.group(1) + ("false" if m.group(2) == "true" else "true"), "flip-bool-result"))
+            if re.match(r"^[A-Za-z_][\w\.\[\]\*]*(\(.*\)| [-+|&]?= .*)$", st) and not st.startswith(("return", "if ", "for ", "switch", "case", "defer", "go ", "var ", "func", "type ", "default", "panic")) and ":=" not in st and not st.endswith(("{", ",", "(")):
+                out.append((f, i, line, re.match(r"^\s*", line).group(0) + "// deleted: " + st, "delete-statement"))
+    return out
+
+
 def sites(files):
     out = []
     for f in files:
@@ -119,7 +143,7 @@ def main():
     files = sorted(f for f in os.listdir("/repo") if f.endswith(".go") and not f.endswith("_test.go"))
     if "--files" in args:
         files = args[args.index("--files") + 1].split(",")
-    all_sites = sites(files)
+    all_sites = sites2(files) if "--ops2" in args else sites(files)
     done = set()
     if "--resume" in args and os.path.exists(out_path):
         for l in open(out_path):
